@@ -394,6 +394,25 @@ impl Prop for C17 {
         }
     }
 
+    fn post_merge(&self, tier: Tier, seed: u64, _outdir: &str, _nshards: u32) -> (Vec<Fail>, serde_json::Value) {
+        if tier != Tier::Thorough {
+            return (Vec::new(), json!({}));
+        }
+        // coverage-guided campaign on the same oracle: 16 workers x 1.5 M executions, fresh corpora seeded with valid FENs
+        let c = crate::fuzz::campaign("fen", "/verif/harness/fuzz/seeds/fen", Some("/verif/harness/fuzz/fen.dict"), 1_500_000, seed, 120, 16);
+        let zob = Zob::repo();
+        let mut fails = Vec::new();
+        for a in &c.artifacts {
+            let text = String::from_utf8_lossy(a).to_string();
+            let case = serde_json::to_value(FenCase::Text { text: text.clone() }).unwrap();
+            match judge(&text, &zob) {
+                Err(f) => fails.push(f.with_case(case)),
+                Ok(_) => fails.push(Fail::new("fuzz-target-crashed", format!("libFuzzer saved {:?} as a crash, the oracle accepts it when replayed", text)).with_case(case)),
+            }
+        }
+        (fails, json!({"libfuzzer_fen": {"executions": c.executions, "workers": c.workers, "crash_artifacts": c.artifacts.len(), "notes": c.notes}}))
+    }
+
     fn enumerate(&self, ctx: &Ctx, ev: &mut Ev, report: &mut dyn FnMut(FenCase, Fail)) {
         // all single-character replacements / insertions / deletions of a few fixed FENs with the whole alphabet
         let bases = [START_FEN, "r3k2r/p1ppqpb1/bn2pnp1/3PN3/1p2P3/2N2Q1p/PPPBBPPP/R3K2R w KQkq - 0 1", "8/8/8/K1Pp3r/8/8/8/4k3 w - d6 0 1", "4k3/8/8/8/2pPp3/8/8/4K3 b - d3"];
